@@ -1,10 +1,12 @@
 package verifsim
 
 import (
+	"encoding/hex"
 	"fmt"
 
 	quic "github.com/refraction-networking/uquic"
 	"github.com/refraction-networking/uquic/internal/handshake"
+	tls "github.com/refraction-networking/utls"
 )
 
 var wSpecIDs = map[string]quic.QUICID{
@@ -18,6 +20,13 @@ var wSpecIDs = map[string]quic.QUICID{
 }
 
 var wSpecNames = []string{"chrome115", "chrome115v6", "chrome146", "chrome146v6", "firefox116", "firefox116b", "firefox116c"}
+
+// identifiers recorded with the reference fingerprinter (the third field of the QUICID); per the
+// property only Chrome_115 IPv4/IPv6 and Firefox_116 A/B/C are claimed to be reproduced by the wire today
+var wRecordedFP = map[string]string{
+	"chrome115": quic.QUICChrome_115_IPv4.Fingerprint, "chrome115v6": quic.QUICChrome_115_IPv6.Fingerprint,
+	"firefox116": quic.QUICFirefox_116A.Fingerprint, "firefox116b": quic.QUICFirefox_116B.Fingerprint, "firefox116c": quic.QUICFirefox_116C.Fingerprint,
+}
 
 func wBuildSpec(cfg *WConfig) (*quic.QUICSpec, error) {
 	id, ok := wSpecIDs[cfg.Client]
@@ -51,4 +60,111 @@ func wSetKeyUpdateInterval(n int) {
 	}
 }
 
-func wApplyDerive(spec *quic.QUICSpec, d *WDerive) error { return nil }
+func wQTPExt(spec *quic.QUICSpec) *tls.QUICTransportParametersExtension {
+	if spec == nil || spec.ClientHelloSpec == nil {
+		return nil
+	}
+	for _, e := range spec.ClientHelloSpec.Extensions {
+		if q, ok := e.(*tls.QUICTransportParametersExtension); ok {
+			return q
+		}
+	}
+	return nil
+}
+
+// wApplyDerive turns a built-in fingerprint into a member of the derived family described by d.
+// Nothing here removes a parameter the peer requires unless d.Suppress names one explicitly
+// (the generator does not do that for C02).
+func wApplyDerive(spec *quic.QUICSpec, d *WDerive) error {
+	ips := &spec.InitialPacketSpec
+	p := func(i int, def int64) int64 {
+		if i < len(d.P) {
+			return d.P[i]
+		}
+		return def
+	}
+	switch d.Builder {
+	case "", "keep":
+	case "nil":
+		ips.FrameBuilder = nil
+	case "random":
+		ips.FrameBuilder = &quic.QUICRandomFrames{MinPING: uint8(p(0, 0)), MaxPING: uint8(p(1, 3)), MinCRYPTO: uint8(p(2, 1)), MaxCRYPTO: uint8(p(3, 4)),
+			MinPADDING: uint8(p(4, 1)), MaxPADDING: uint8(p(5, 3)), Length: uint16(p(6, 1200))}
+	case "frames":
+		// a QUICFrames layout that tiles the slice: cuts at p0 < p1 < p2 (bytes), last frame takes the rest, PING/PADDING in between, order from p3
+		c0, c1, c2 := int(p(0, 10)), int(p(1, 60)), int(p(2, 150))
+		fr := quic.QUICFrames{
+			quic.QUICFrameCrypto{Offset: 0, Length: c0},
+			quic.QUICFramePing{},
+			quic.QUICFrameCrypto{Offset: c1, Length: c2 - c1},
+			quic.QUICFramePadding{Length: int(p(4, 20))},
+			quic.QUICFrameCrypto{Offset: c0, Length: c1 - c0},
+			quic.QUICFrameCrypto{Offset: c2, Length: 0},
+		}
+		if p(3, 0)%2 == 1 {
+			fr[0], fr[2] = fr[2], fr[0]
+		}
+		ips.FrameBuilder = fr
+	case "multi":
+		ips.FrameBuilder = &quic.QUICMultiDatagramFrames{PerDatagram: []quic.QUICRandomFrames{
+			{MinPING: 0, MaxPING: uint8(p(0, 2)) + 1, MinCRYPTO: 1, MaxCRYPTO: uint8(p(1, 3)) + 2, MinPADDING: 1, MaxPADDING: 3, Length: uint16(p(2, 1180))},
+			{MinPING: 1, MaxPING: 3, MinCRYPTO: 1, MaxCRYPTO: uint8(p(3, 2)) + 2, MinPADDING: 1, MaxPADDING: 2, Length: uint16(p(4, 900))},
+		}}
+	default:
+		return fmt.Errorf("unknown builder %q", d.Builder)
+	}
+	if d.InitPN != 0 {
+		ips.InitPacketNumber = uint64(d.InitPN)
+		if d.InitPN < 0 {
+			ips.InitPacketNumber = 0
+		}
+	}
+	if len(d.PNLens) > 0 {
+		ips.InitPacketNumberLength = 0
+		ips.InitPacketNumberLengths = nil
+		for _, l := range d.PNLens {
+			ips.InitPacketNumberLengths = append(ips.InitPacketNumberLengths, quic.PacketNumberLen(l))
+		}
+	}
+	switch {
+	case d.Token == "":
+	case d.Token == "none":
+		ips.ClientTokenLength, ips.ClientTokenPrefix, ips.TokenStore = 0, nil, nil
+	case len(d.Token) > 4 && d.Token[:4] == "len:":
+		var n int
+		fmt.Sscanf(d.Token[4:], "%d", &n)
+		ips.ClientTokenLength, ips.ClientTokenPrefix = n, nil
+	case len(d.Token) > 7 && d.Token[:7] == "prefix:":
+		var hx string
+		var n int
+		fmt.Sscanf(d.Token[7:], "%[0-9a-f]:%d", &hx, &n)
+		b, _ := hex.DecodeString(hx)
+		ips.ClientTokenPrefix, ips.ClientTokenLength = b, n
+	}
+	if d.SrcCIDLen != 0 {
+		ips.SrcConnIDLength = max(d.SrcCIDLen, 0)
+		if d.SrcCIDLen < 0 {
+			ips.SrcConnIDLength = 0
+		}
+	}
+	if d.DstCIDLen != 0 {
+		ips.DestConnIDLength = d.DstCIDLen
+	}
+	if d.UDPMin != 0 {
+		spec.UDPDatagramMinSize = d.UDPMin
+	}
+	if len(d.Suppress) > 0 {
+		spec.SuppressTransportParameters = append([]uint64{}, d.Suppress...)
+	}
+	switch d.Shuffle {
+	case 1:
+		spec.RandomizeTransportParameters = true
+	case 2:
+		spec.RandomizeTransportParameters = false
+	}
+	if d.PadCH > 0 && spec.ClientHelloSpec != nil {
+		// enlarge the ClientHello (1..4 Initial datagrams) with an unknown extension the server ignores
+		spec.ClientHelloSpec.Extensions = append(spec.ClientHelloSpec.Extensions, &tls.GenericExtension{Id: 0xfe0d + 0x100, Data: make([]byte, d.PadCH)})
+	}
+	return nil
+}
